@@ -103,6 +103,7 @@ def is_explicit_rejection(e):
 
 
 XS_EXTRA = []  # per-case random x (thorough tier), set by run_case
+XS_POINT = []  # the convolution point of the channel that owns the RSL under test (state kept there must not leak between kernels)
 
 
 def check_rsl(rsl, label, viol, counters, ratio=None):
@@ -144,7 +145,7 @@ def check_rsl(rsl, label, viol, counters, ratio=None):
         return True, margin
     try:
         l0 = rsl.loc(X0, a["loc"])
-        for x in sorted(XS_ID + XS_EXTRA):
+        for x in sorted(XS_ID + XS_EXTRA + XS_POINT):
             lx = rsl.loc(x, a["loc"])
             integ = quad.int_sing(rsl, X0, x)[0] if rsl.sing is not None else 0.0
             if not (np.isfinite(lx) and np.isfinite(integ) and np.isfinite(l0)):
@@ -188,13 +189,19 @@ def run_case(case):
     todo = []  # (label, key, rsl)
     try:
         if case["mode"] == "module":
-            fam, kind, proc, nf = case["family"], case["kind"], case["proc"], case["nf"]
-            try:
-                m = importlib.import_module(f"yadism.coefficient_functions.{fam}.{kind}_{proc}")
-            except ModuleNotFoundError:
-                return dict(status="held", compared=0, nontrivial=[], classes=[], probes=counters, sample=dict(module=f"{fam}.{kind}_{proc}", exists=False))
+            fam, proc, nf = case["family"], case["proc"], case["nf"]
             classes.add(fam)
-            for cname, c in sorted(vars(m).items()):
+            mods = []
+            # the module of this case last, its siblings (other kinds, same family and process, same kinematic point) first: all
+            # in one process, so that state shared between sibling kernels shows
+            for kind in [k_ for k_ in KINDS if k_ != case["kind"]] + [case["kind"]]:
+                try:
+                    mods.append((kind, importlib.import_module(f"yadism.coefficient_functions.{fam}.{kind}_{proc}")))
+                except ModuleNotFoundError:
+                    continue
+            if not mods or mods[-1][0] != case["kind"]:
+                return dict(status="held", compared=0, nontrivial=[], classes=[], probes=counters, sample=dict(module=f"{fam}.{case['kind']}_{proc}", exists=False))
+            for kind, m, cname, c in [(kd, md, cn, cc) for kd, md in mods for cn, cc in sorted(vars(md).items())]:
                 if not (isinstance(c, type) and issubclass(c, pc.PartonicChannel) and c is not pc.PartonicChannel):
                     continue
                 if c.__module__.split(".")[-1] in ("partonic_channel",) or cname.startswith("_"):
@@ -224,7 +231,11 @@ def run_case(case):
                             continue
                         if rsl is None:
                             continue
-                        todo.append((f"{fam}.{kind}_{proc}.{cname}.o{o}", f"{fam}|{kind}_{proc}|{cname}|o{o}|nf{nf}", rsl, dict(nf=nf, ratio=ratio)))
+                        try:
+                            cp = float(inst.convolution_point())
+                        except Exception:  # noqa: BLE001
+                            cp = None
+                        todo.append((f"{fam}.{kind}_{proc}.{cname}.o{o}", f"{fam}|{kind}_{proc}|{cname}|o{o}|nf{nf}", rsl, dict(nf=nf, ratio=ratio, cpoint=cp, sibling=(kind != case["kind"]))))
         elif case["mode"] == "splitting":
             from yadism.coefficient_functions import splitting_functions as split
 
@@ -264,6 +275,16 @@ def run_case(case):
             continue
         seen.add(sig)
         nv = len(viol)
+        cp_ = info.get("cpoint")
+        XS_POINT[:] = [cp_] if (cp_ is not None and 1e-6 < cp_ < 0.9995) else []
+        if info.get("sibling"):
+            # a sibling kernel is only touched at the common convolution point (this is what a real run does with it)
+            if XS_POINT and rsl.loc is not None:
+                try:
+                    rsl.loc(XS_POINT[0], rsl.args["loc"])
+                except Exception:  # noqa: BLE001
+                    pass
+            continue
         checked, m = check_rsl(rsl, label, viol, counters, info.get('ratio'))
         for v in viol[nv:]:
             v.setdefault("detail", {}).update(info=info)
